@@ -98,7 +98,11 @@ def populate(odb, uni, oids, corrupt=()):
     for o in oids:
         data = uni.data(o)
         if o in corrupt:
-            data = b"CORRUPT-" + data
+            if o.endswith(".dir"):
+                # damaged but still a valid listing with the same entries: the bytes no longer hash to the name
+                data = json.dumps(json.loads(data), indent=1).encode()
+            else:
+                data = b"CORRUPT-" + data
         put_raw(odb.path, o, data)
 
 
